@@ -169,11 +169,12 @@ def norm_op(op):
 class PyWorld:
     """the real objects: one ParameterModelMapper and a list of ParameterSets"""
 
-    def __init__(self, src):
+    def __init__(self, src, nz=False):
         from skyllh.core.model import Model
         from skyllh.core.source_model import SourceModel
         from skyllh.core.parameters import ParameterModelMapper
         self.src = list(src)
+        self.nz = bool(nz)     # hand every zero to the implementation as -0.0 (the model's integer 0 either way)
         self.models = [SourceModel(f'm{i}') if f else Model(f'm{i}') for i, f in enumerate(src)]
         self.pmm = ParameterModelMapper(self.models)
         self.sets = []
@@ -186,6 +187,11 @@ class PyWorld:
     def all_sets(self):
         return [self.pmm.global_paramset] + self.sets
 
+    def _f(self, v):
+        if v is None:
+            return None
+        return -0.0 if (self.nz and v == 0) else float(v)
+
     def _alloc(self, p):
         self.label[id(p)] = len(self.keep)
         self.keep.append(p)
@@ -193,8 +199,7 @@ class PyWorld:
     def _mk(self, d):
         from skyllh.core.parameters import Parameter
         name, init, lo, hi, fx = d
-        return Parameter(nm(name), float(init), None if lo is None else float(lo),
-                         None if hi is None else float(hi), fx)
+        return Parameter(nm(name), self._f(init), self._f(lo), self._f(hi), fx)
 
     def _model_objs(self, idxs):
         from skyllh.core.model import Model
@@ -233,7 +238,7 @@ class PyWorld:
                         DAMAGE.append(('ParameterModelMapper.map_param', 'models-or-names-argument-modified', repr(names)))
                 self._alloc(p)
             elif k == 'fix':
-                req = {nm(n): (None if v is None else float(v)) for n, v in op[2]}
+                req = {nm(n): self._f(v) for n, v in op[2]}
                 req0 = dict(req)
                 try:
                     self.get(op[1]).make_params_fixed(req)
@@ -246,9 +251,9 @@ class PyWorld:
                     if e is None:
                         req[nm(n)] = None
                     elif e[0] == 'i':
-                        req[nm(n)] = float(e[1])
+                        req[nm(n)] = self._f(e[1])
                     else:
-                        req[nm(n)] = tuple(None if x is None else float(x) for x in e[1:])
+                        req[nm(n)] = tuple(self._f(x) for x in e[1:])
                 req0 = dict(req)
                 try:
                     self.get(op[1]).make_params_floating(req)
@@ -271,7 +276,7 @@ class PyWorld:
                     self._alloc(p)
                 self.sets.append(c)
             elif k == 'setv':
-                self.get(op[1]).params[op[2]].value = float(op[3])
+                self.get(op[1]).params[op[2]].value = self._f(op[3])
             else:
                 raise AssertionError(op)
         except Exception as ex:     # noqa: BLE001 - the kind of exception is the observation
@@ -851,7 +856,7 @@ def predicates(ctx, case, w, ref, step, op, err, before):
     for (site, kind, got, want) in bad:
         ctx.violation(site if site in ('ParameterSet', 'ParameterModelMapper') else 'op:' + site, kind,
                       f'step {step} {op!r}: got {got} want {want}',
-                      case={'src': case['src'], 'ops': [list(o) for o in case['ops'][:step + 1]]},
+                      case={'src': case['src'], 'nz': case.get('nz', False), 'ops': [list(o) for o in case['ops'][:step + 1]]},
                       impl=got, predicate=kind)
     return now
 
@@ -1068,7 +1073,7 @@ def history_probes(ctx, case, w, step, op, held, o1, full=True):
     del DAMAGE[:]
     for (site, kind, got, want) in bad:
         ctx.violation(site, kind, f'step {step} {op!r}: {got} {want}',
-                      case={'src': case['src'], 'ops': [list(o) for o in case['ops'][:step + 1]]},
+                      case={'src': case['src'], 'nz': case.get('nz', False), 'ops': [list(o) for o in case['ops'][:step + 1]]},
                       impl=got, predicate=kind)
     return new_held
 
@@ -1084,7 +1089,7 @@ class Runner:
 
     def __init__(self, ctx, case, mode):
         self.ctx, self.case, self.mode = ctx, case, mode
-        self.w = PyWorld(case['src'])
+        self.w = PyWorld(case['src'], case.get('nz', False))
         self.ref = Ref(case['src'])
         self.out = []
         self.before = impl_keys(self.w)
@@ -1112,7 +1117,7 @@ class Runner:
         del DAMAGE[:]
         if err is not None and err not in ERRS:
             ctx.violation('op:' + op[0], 'unexpected-exception-' + err, f'{op!r} raised {err}',
-                          case={'src': case['src'], 'ops': [list(o) for o in case['ops'][:i + 1]]}, impl=err)
+                          case={'src': case['src'], 'nz': case.get('nz', False), 'ops': [list(o) for o in case['ops'][:i + 1]]}, impl=err)
         ctx.count('op:' + op[0] + (':err' if err else ':ok'))
         if checked:
             try:
@@ -1123,7 +1128,7 @@ class Runner:
                 self.held = history_probes(ctx, case, w, i, op, self.held, o1, self.full)
             except Exception as ex:     # noqa: BLE001 - an observable that cannot even be read is a violation, not a crash
                 ctx.violation('observation', 'reading-the-views-raises-' + type(ex).__name__, f'step {i} {op!r}: {ex}',
-                              case={'src': case['src'], 'ops': [list(o) for o in case['ops'][:i + 1]]}, impl=str(ex)[:300])
+                              case={'src': case['src'], 'nz': case.get('nz', False), 'ops': [list(o) for o in case['ops'][:i + 1]]}, impl=str(ex)[:300])
                 if len(self.out) <= (i if self.mode == 'trace' else 0):
                     self.out.append((('Some', err) if err else 'None', ('unreadable',)))
         else:
@@ -1165,7 +1170,7 @@ LNAMES = [4, 5, 6, 7]
 
 def gen_decl(rng, name, ctx=None):
     r = rng.random()
-    lo = rng.choice([-4, 0, 2])
+    lo = rng.choice([-4, 0, 2, -1])
     hi = lo + rng.choice([0, 1, 3, 6])
     if r < 0.40:
         kind, d = 'floating', (name, rng.randint(lo, hi), lo, hi, None)
@@ -1187,7 +1192,11 @@ def gen_decl(rng, name, ctx=None):
 
 
 def gen_value_for(rng, e, ctx, tag):
-    """a value relative to an Entry's bounds: inside / on / just outside / far"""
+    """a value relative to an Entry's bounds: inside / on / just outside / far; exactly 0 has a quota of its own
+    (0.0 is falsy in Python: `x or default`, `if x:`)"""
+    if rng.random() < 0.15:
+        ctx.count(tag + ':zero')
+        return 0
     if e.lo is None or e.hi is None:
         ctx.count(tag + ':nobounds')
         return rng.randint(-5, 9)
@@ -1272,9 +1281,11 @@ def gen_ops(ctx, rng, src, length):
                     elif rr < 0.55:
                         req.append((e.name, ('i', gen_value_for(rng, e, ctx, 'float-initial'))))
                     else:
-                        lo = rng.choice([-3, 0, 1])
+                        lo = rng.choice([-3, 0, 1, -2])
                         hi = lo + rng.choice([0, 2, 5])
-                        i = rng.choice([None, lo, hi, rng.randint(lo, hi), lo - 1, hi + 1])
+                        i = rng.choice([None, lo, hi, rng.randint(lo, hi), lo - 1, hi + 1, 0, 0])
+                        if i == 0:
+                            ctx.count('float-entry:triple-initial-zero')
                         tri = ('t', i, rng.choice([lo, lo, None]), rng.choice([hi, hi, None]))
                         ctx.count('float-entry:triple')
                         req.append((e.name, tri))
@@ -1369,6 +1380,19 @@ def corpus_cases():
         {'src': [True], 'ops': [('new',), ('add', 0, False, fl(0)), ('add', 0, True, fx(1)), ('union', [0]),
                                 ('fix', 1, [(0, 7)]), ('float', 0, [(1, ('t', 1, 0, 2))]), ('union', [0, 1, 'G']),
                                 ('copy', 1), ('float', 1, [(0, ('t', 1, 0, 2))]), ('setv', 2, 0, 2)]},
+        # zero is a value like any other: requested initial / fixed value / bounds / setter value exactly 0 (and -0.0)
+        {'src': [True, False], 'ops': [('map', fx(0, 5), None, None), ('map', (1, 0, 0, 0, None), [0], ('s', 4)),
+                                       ('map', (2, 0, -1, 1, None), None, ('s', 5)),
+                                       ('float', 'G', [(0, ('t', 0, -1, 6))]), ('fix', 'G', [(0, 0)]),
+                                       ('float', 'G', [(0, ('t', 3, 0, 4))]), ('fix', 'G', [(0, None)]),
+                                       ('float', 'G', [(0, ('i', 0))]), ('setv', 'G', 0, 0), ('setv', 'G', 2, 0),
+                                       ('fix', 'G', [(2, 0), (1, None)]), ('float', 'G', [(2, ('t', 0, 0, 0)), (1, None)]),
+                                       ('fix', 'G', [(0, 7)]), ('float', 'G', [(0, ('t', 0, None, None))])]},
+        {'src': [True, False], 'nz': True,
+         'ops': [('map', fx(0, 5), None, None), ('map', (1, 0, 0, 0, None), [0], ('s', 4)),
+                 ('float', 'G', [(0, ('t', 0, -1, 6))]), ('fix', 'G', [(0, 0)]), ('float', 'G', [(0, ('t', 3, 0, 4))]),
+                 ('fix', 'G', [(0, None)]), ('float', 'G', [(0, ('i', 0))]), ('setv', 'G', 0, 0),
+                 ('fix', 'G', [(0, 7)]), ('float', 'G', [(0, ('t', 0, 0, None))]), ('union', ['G']), ('copy', 0)]},
         # 38184bc (C02, same code): fixed parameter declared ahead of a floating one
         {'src': [True, True], 'ops': [('map', fx(0), None, None), ('map', fl(1), [1], ('s', 4)), ('map', fl(2), [0], ('s', 4)),
                                       ('fix', 'G', [(1, None)]), ('float', 'G', [(0, ('t', 1, 0, 2))])]},
@@ -1404,7 +1428,7 @@ def run_batch(ctx, batch, tag):
         if mt != it:
             k = next((i for i, (a, b) in enumerate(zip(mt, it)) if a != b), min(len(mt), len(it)))
             ctx.disagree('parameters.' + (case['ops'][-1][0] if case['ops'] else 'init'),
-                         {'src': case['src'], 'ops': [list(o) for o in case['ops']], 'mode': mode},
+                         {'src': case['src'], 'nz': case.get('nz', False), 'ops': [list(o) for o in case['ops']], 'mode': mode},
                          ' '.join(it[max(0, k - 12):k + 12]), ' '.join(mt[max(0, k - 12):k + 12]),
                          detail=f'first difference at token {k}')
 
@@ -1432,7 +1456,9 @@ def run(ctx):
         ops = gen_ops(ctx, rng, src, length)
         ctx.count(f'random:len{len(ops)}')
         ctx.count('layout:' + ''.join('S' if b else 'm' for b in src))
-        batch.append(({'src': src, 'ops': ops}, 'trace'))
+        batch.append(({'src': src, 'ops': ops, 'nz': i % 4 == 3}, 'trace'))
+        if i % 4 == 3:
+            ctx.count('zeros-as-negative-zero')
     ctx.sample({'src': batch[-1][0]['src'], 'ops': [list(o) for o in batch[-1][0]['ops']][:8]})
     ctx.sample({'src': batch[0][0]['src'], 'ops': [list(o) for o in batch[0][0]['ops']]})
     run_batch(ctx, batch, 'm')
@@ -1443,5 +1469,5 @@ def replay(ctx, rp):
     if not c.get('ops'):
         ctx.notes.append('replay file has no concrete input (broken obligation): re-running the full check')
         return run(ctx)
-    case = {'src': [bool(b) for b in c['src']], 'ops': [norm_op(tup(o)) for o in c['ops']]}
+    case = {'src': [bool(b) for b in c['src']], 'ops': [norm_op(tup(o)) for o in c['ops']], 'nz': bool(c.get('nz', False))}
     run_batch(ctx, [(case, 'trace')], 'r')
